@@ -400,7 +400,14 @@ pub fn gen_tilejson(rng: &mut Rng, format: TileFormat) -> String {
 		}
 	}
 	if format == TileFormat::PBF || rng.chance(0.2) {
-		parts.push("\"vector_layers\":[{\"id\":\"roads\",\"fields\":{\"kind\":\"String\",\"lanes\":\"Number\"},\"minzoom\":0,\"maxzoom\":14},{\"id\":\"water\",\"fields\":{}}]".to_string());
+		if rng.chance(0.5) {
+			parts.push("\"vector_layers\":[{\"id\":\"roads\",\"fields\":{\"kind\":\"String\",\"lanes\":\"Number\"},\"minzoom\":0,\"maxzoom\":14},{\"id\":\"water\",\"fields\":{}}]".to_string());
+		} else {
+			// field names as real schemas have them (name_en, admin_level, name:de), zoom ranges that differ from set to set
+			let (lo, hi) = (rng.below(6), 6 + rng.below(19));
+			let extra = *rng.pick(&["\"name_en\":\"String\",", "\"admin_level\":\"Number\",\"name:de\":\"String\",", "\"is-tunnel\":\"Boolean\",", ""]);
+			parts.push(format!("\"vector_layers\":[{{\"id\":\"roads\",\"fields\":{{{extra}\"kind\":\"String\"}},\"minzoom\":{lo},\"maxzoom\":{hi}}},{{\"id\":\"water_polygons\",\"fields\":{{\"way_area\":\"Number\"}}}}]"));
+		}
 	}
 	format!("{{{}}}", parts.join(","))
 }
@@ -424,6 +431,8 @@ pub struct MemSource {
 	pub default_stream: bool,
 	/// > 0: lookups and streams go Pending (yield to the scheduler) like a reader doing real I/O
 	pub yields: u32,
+	/// single-tile lookups at these coordinates fail
+	pub failing: Option<Arc<std::collections::BTreeSet<Key>>>,
 }
 
 impl std::fmt::Debug for MemSource {
@@ -447,6 +456,7 @@ impl MemSource {
 			log: None,
 			default_stream: false,
 			yields: 0,
+			failing: None,
 		}
 	}
 	pub fn recording(mut self) -> (MemSource, Arc<Mutex<Vec<Req>>>) {
@@ -496,6 +506,9 @@ impl TilesReaderTrait for MemSource {
 		}
 		for _ in 0..self.yields {
 			tokio::task::yield_now().await;
+		}
+		if self.failing.as_ref().is_some_and(|f| f.contains(&key_of(coord))) {
+			anyhow::bail!("{}: this tile cannot be read (injected read error)", self.name);
 		}
 		Ok(self.tiles.get(&key_of(coord)).cloned())
 	}
